@@ -598,23 +598,13 @@ class Ctx:
         shutil.rmtree(self.tmp, ignore_errors=True)
 
 
-def gen_vectors(ctx, units, modes, rep, nshort=0, nbits=0, select=None):
-    """TLC: stimuli + expected results for every (unit, type, mode).  Returns list of vector dicts
-    with 'unit' and 'type' attached, and the info records per unit."""
+def run_jobs(ctx, units, jobs, rep, tag="vec"):
+    """TLC MC_Vectors over an explicit job list [{d (1-based unit position), type, mode, n}]."""
     descs_p = os.path.join(ctx.tmp, "descs.ndjson")
     jobs_p = os.path.join(ctx.tmp, "jobs.ndjson")
     write_ndjson(descs_p, [u.desc for u in units])
-    jobs = []
-    for k, u in enumerate(units):
-        jobs.append(dict(d=k + 1, type="", mode="info", n=0))
-        for t in u.types():
-            if select and not select(u, t):
-                continue
-            for m in modes:
-                n = nshort if m == "decx" else nbits if m == "encx" else 0
-                jobs.append(dict(d=k + 1, type=t, mode=m, n=n))
     write_ndjson(jobs_p, jobs)
-    lines, stats = tlc("MC_Vectors", "MC_Vectors.cfg", dict(DESCS=descs_p, JOBS=jobs_p), tag="vec")
+    lines, stats = tlc("MC_Vectors", "MC_Vectors.cfg", dict(DESCS=descs_p, JOBS=jobs_p), tag=tag)
     rep.tlc_stats(stats)
     vecs = parse_tagged(lines, "VEC")
     info = {}
@@ -628,6 +618,21 @@ def gen_vectors(ctx, units, modes, rep, nshort=0, nbits=0, select=None):
         v["unit"], v["type"], v["mode"] = u, j["type"], j["mode"]
         out.append(v)
     return out, info
+
+
+def gen_vectors(ctx, units, modes, rep, nshort=0, nbits=0, select=None):
+    """TLC: stimuli + expected results for every (unit, type, mode).  Returns list of vector dicts
+    with 'unit' and 'type' attached, and the info records per unit."""
+    jobs = []
+    for k, u in enumerate(units):
+        jobs.append(dict(d=k + 1, type="", anc="", mode="info", n=0))
+        for t in u.types():
+            if select and not select(u, t):
+                continue
+            for m in modes:
+                n = nshort if m == "decx" else nbits if m == "encx" else 0
+                jobs.append(dict(d=k + 1, type=t, anc="", mode=m, n=n))
+    return run_jobs(ctx, units, jobs, rep)
 
 
 def rust_requests(vecs):
@@ -852,7 +857,229 @@ def check_rust_codec(prop, ctx):
     return rep.finish()
 
 
+# ------------------------------------------------------------------------------ C15 enums
+def check_c15(ctx):
+    rep = Report("C15", ctx.tier, ctx.seed)
+    units, bins = prepare_rust_units(ctx, ctx.tier)
+    nexh = 16 if ctx.tier == "thorough" else 10
+    jobs = []
+    seen = set()
+    for k, u in enumerate(units):
+        jobs.append(dict(d=k + 1, type="", mode="info", n=0))
+        for e in u.enums():
+            sig = json.dumps(e, sort_keys=True)
+            if (sig, u.desc["endian"]) in seen or not 1 <= e["width"] <= 64:
+                continue
+            seen.add((sig, u.desc["endian"]))
+            jobs.append(dict(d=k + 1, type=e["id"], mode="enum", n=nexh))
+    vecs, info = run_jobs(ctx, units, jobs, rep)
+    usable = [v for v in vecs if v["unit"].name in bins]
+    reqs = []
+    for i, v in enumerate(usable):
+        v["rid"] = i
+        reqs.append(dict(rid=i, desc=v["unit"].name, type=v["type"], op="enum_from", x=pdl.unlimbs(v["x"])))
+    # defaults and widening conversions, once per enum
+    extra = []
+    per_enum = {}
+    for v in usable:
+        per_enum.setdefault((v["unit"].name, v["type"]), v)
+    rid = len(reqs)
+    for (un, en), v in per_enum.items():
+        extra.append(dict(rid=rid, desc=un, type=en, op="enum_default", _v=v)); rid += 1
+    widen_ops = {}
+    for v in usable:
+        if v["class"] == "invalid":
+            continue
+        w = v["width"]
+        b = backing(w)
+        for n in (8, 16, 32, 64):
+            for sign in ("i", "u"):
+                if (sign == "i" and n > w) or (sign == "u" and n >= w and n != b):
+                    extra.append(dict(rid=rid, desc=v["unit"].name, type=v["type"], op="widen:%s%d" % (sign, n),
+                                      x=pdl.unlimbs(v["x"]), _v=v)); rid += 1
+    obs = run_rust(bins, reqs + [{k: x[k] for k in x if k != "_v"} for x in extra], tag="enum")
+    for v in usable:
+        o = obs[v["rid"]]["r"]
+        x = pdl.unlimbs(v["x"])
+        kind = None
+        if _abn(o):
+            kind = "abnormal:" + str(o.get("abnormal"))
+        elif "unrepresentable" in o:
+            rep.validated()
+            continue
+        elif v["class"] == "invalid":
+            if "err" not in o:
+                kind = "accepts_invalid:" + ("above" if v["label"] == ["above"] else "undeclared")
+            elif o["err"] != x:
+                kind = "error_value_differs"
+        else:
+            if "ok" not in o:
+                kind = "rejects_valid:" + v["class"]
+            elif o["ok"] != x:
+                kind = "into_differs"
+            elif not o.get("stable"):
+                kind = "unstable_variant"
+            elif ("(" in o.get("dbg", "")) != (v["class"] in ("range", "other")):
+                kind = "wrong_variant_kind:%s" % v["class"]
+        rep.validated()
+        if kind:
+            rep.violation("C15|rust|%s|%s|%s" % (v["unit"].name, v["type"], kind),
+                          {"backend": "rust", "desc": v["unit"].desc, "pdl": v["unit"].src, "enum": v["type"], "x": x,
+                           "expected": {"class": v["class"], "tag": v["tag"]}, "observed": o})
+        elif rep.coverage["traces_validated_against_impl"] % 499 == 1:
+            rep.sample({"desc": v["unit"].name, "enum": v["type"], "x": x, "expected_class": v["class"], "tag": v["tag"]})
+    for xr in extra:
+        v = xr["_v"]
+        o = obs[xr["rid"]]["r"]
+        kind = None
+        if _abn(o):
+            kind = "abnormal:" + str(o.get("abnormal"))
+        elif xr["op"] == "enum_default":
+            if o.get("ok") != pdl.unlimbs(v["dflt"]):
+                kind = "default_value"
+        else:
+            if o.get("ok") != str(xr["x"]):
+                kind = "widening_changes_value:" + xr["op"]
+        rep.validated()
+        if kind:
+            rep.violation("C15|rust|%s|%s|%s" % (v["unit"].name, v["type"], kind),
+                          {"backend": "rust", "desc": v["unit"].desc, "pdl": v["unit"].src, "enum": v["type"], "op": xr["op"],
+                           "x": xr.get("x"), "expected_default": pdl.unlimbs(v["dflt"]), "observed": o})
+    rep.notes["enums"] = len(per_enum)
+    rep.notes["exhaustive_up_to_width"] = nexh
+    rep.coverage["exhaustive"] = False
+    rep.assumptions += ["expected classification computed by TLC from spec/PdlEnum.tla",
+                        "Rust: named tag vs range/default variant observed through Debug (tuple variant or not)"]
+    return rep.finish()
+
+
+# ------------------------------------------------------------------------------ C06 inheritance
+def check_c06(ctx):
+    rep = Report("C06", ctx.tier, ctx.seed)
+    units, bins = prepare_rust_units(ctx, ctx.tier)
+    jobs = []
+    for k, u in enumerate(units):
+        jobs.append(dict(d=k + 1, type="", anc="", mode="info", n=0))
+        if u.name not in bins:
+            continue
+        for t in u.types():
+            if u.children(t):
+                jobs.append(dict(d=k + 1, type=t, anc=t, mode="spec", n=0))
+            ch = u.chain(t)
+            for anc in ch[:-1]:
+                jobs.append(dict(d=k + 1, type=t, anc=anc["id"], mode="down", n=0))
+                jobs.append(dict(d=k + 1, type=t, anc=anc["id"], mode="up", n=0))
+    vecs, info = run_jobs(ctx, units, jobs, rep)
+    usable = [v for v in vecs if info.get(v["unit"].name, {}).get("rust") and v["unit"].name in bins]
+    reqs = []
+    for i, v in enumerate(usable):
+        v["rid"] = i
+        j = jobs[v["job"] - 1]
+        v["anc"] = j["anc"]
+        if v["k"] == "spec":
+            reqs.append(dict(rid=i, desc=v["unit"].name, type=v["anc"], op="specialize", bytes=v["bytes"]))
+        elif v["k"] == "down":
+            reqs.append(dict(rid=i, desc=v["unit"].name, type=v["type"], op="down_from:" + v["anc"], bytes=v["bytes"]))
+        else:
+            reqs.append(dict(rid=i, desc=v["unit"].name, type=v["type"], op="up_to:" + v["anc"],
+                             value=node_to_native(v["val"])))
+    obs = run_rust(bins, reqs, tag="inh")
+
+    def viol(v, kind, detail):
+        fp = "C06|rust|%s|%s<-%s|%s|%s" % (v["unit"].name, v["type"], v["anc"], kind, labelsig(v, detail))
+        rp = {"backend": "rust", "desc": v["unit"].desc, "pdl": v["unit"].src, "op": v["k"], "type": v["type"],
+              "ancestor": v["anc"], "label": v.get("label"), "observed": detail}
+        if "bytes" in v:
+            rp["stimulus"] = {"bytes": hexs(v["bytes"])}
+        if v["k"] == "up":
+            rp["stimulus"] = {"value": node_to_native(v["val"])}
+        rp["expected"] = {k: v[k] for k in ("pfaults", "faults", "consfirst") if k in v}
+        if v["k"] == "spec":
+            rp["expected"]["outcomes"] = [{"child": o["child"], "faults": o["faults"],
+                                           "value": node_to_native(o["val"])} for o in v["outcomes"]]
+        rep.violation(fp, rp)
+
+    for v in usable:
+        o = obs[v["rid"]]
+        r = o.get("r", {})
+        rep.validated()
+        if "abnormal" in o or _abn(r):
+            viol(v, "abnormal:" + str((r if _abn(r) else o).get("abnormal")), r)
+            continue
+        if v["k"] in ("spec", "down"):
+            if v["pfaults"]:
+                continue          # the parent itself is rejected: C04's business
+            if "parent_err" in r:
+                continue
+        if v["k"] == "spec":
+            if not v["unambiguous"]:
+                continue
+            outs = v["outcomes"]
+            if "err" in r:
+                cls = RUST_DEC.get(r["err"], r["err"])
+                if not any(cls in x["faults"] for x in outs):
+                    viol(v, "specialize_error:%s" % r["err"], r)
+            elif r.get("ok") == "None":
+                if not any(x["child"] == "" for x in outs):
+                    viol(v, "specialize_none_but_child_matches:" + "+".join(sorted(x["child"] for x in outs)), r)
+            else:
+                (cid, cval), = r["ok"].items()
+                match = [x for x in outs if x["child"] == cid]
+                if not match:
+                    viol(v, "specialize_wrong_child:%s_expected_%s" % (cid, "+".join(sorted(x["child"] or "None" for x in outs))), r)
+                elif match[0]["faults"]:
+                    viol(v, "specialize_accepts_unparsable_child:" + cid, r)
+                elif not same_native(cval, node_to_native(match[0]["val"])):
+                    viol(v, "specialize_child_value:" + cid, {"expected": node_to_native(match[0]["val"]), "got": cval})
+        elif v["k"] == "down":
+            F = set(v["faults"])
+            if "Unsupported" in F:
+                continue
+            if not F:
+                if "ok" not in r:
+                    viol(v, "down_rejects:" + str(r.get("err")), r)
+                elif not same_native(r["ok"], node_to_native(v["val"])):
+                    viol(v, "down_value", {"expected": node_to_native(v["val"]), "got": r["ok"]})
+                elif not (r.get("back", {}).get("same")):
+                    viol(v, "down_then_up_differs", r)
+            else:
+                if "ok" in r:
+                    viol(v, "down_accepts:" + "+".join(sorted(F)), r)
+                else:
+                    cls = RUST_DEC.get(r["err"], r["err"])
+                    if cls not in F:
+                        viol(v, "down_class:%s_not_in_%s" % (r["err"], "+".join(sorted(F))), r)
+                    elif v["consfirst"] and cls != "ConstraintValue":
+                        viol(v, "constraint_violation_not_reported:%s" % r["err"], r)
+        else:
+            F = set(v["faults"])
+            if F:
+                continue
+            if "unconstructible" in r:
+                continue
+            if "ok" not in r:
+                viol(v, "up_fails:" + str(r.get("err")), r)
+                continue
+            if not same_native(r["ok"], node_to_native(v["pval"])):
+                viol(v, "up_value", {"expected": node_to_native(v["pval"]), "got": r["ok"]})
+            if r.get("child_bytes", {}).get("ok") != v["bytes"]:
+                viol(v, "child_bytes", {"expected": hexs(v["bytes"]), "got": r.get("child_bytes")})
+            if r.get("parent_bytes", {}).get("ok") != v["pbytes"]:
+                viol(v, "parent_bytes_differ_from_child_bytes", {"expected": hexs(v["pbytes"]), "got": r.get("parent_bytes")})
+            if not r.get("back", {}).get("same"):
+                viol(v, "up_then_down_differs", r.get("back"))
+        if rep.coverage["traces_validated_against_impl"] % 499 == 1:
+            rep.sample({"desc": v["unit"].name, "op": v["k"], "type": v["type"], "ancestor": v["anc"],
+                        "stimulus": hexs(v["bytes"]) if "bytes" in v and v["k"] != "up" else node_to_native(v["val"])})
+    rep.notes["jobs"] = len(jobs)
+    rep.assumptions += ["specialize(): any identified child is accepted when several match (spec/PdlInherit.tla Candidates)",
+                        "a child that no visible constraint and no size discrimination identifies is never a candidate (Assumed)"]
+    return rep.finish()
+
+
 CHECKS = {p: (lambda ctx, p=p: check_rust_codec(p, ctx)) for p in CODEC_MODES}
+CHECKS["C15"] = check_c15
+CHECKS["C06"] = check_c06
 
 
 def main():
